@@ -68,8 +68,35 @@ func (c *Compiler) validateGrouping(
 		return fmt.Errorf("Grouping cycle detected in: grouping %s", g.Name())
 	}
 
+	// Only the groupings on the current path count: a grouping that is
+	// reached twice through different branches (a uses b and c, both of
+	// which use d) is not a cycle.
 	group_map[g.Name()] = true
-	for _, u := range g.ChildrenByType(parse.NodeUses) {
+	defer delete(group_map, g.Name())
+
+	return c.validateGroupingUses(m, g, g, group_map)
+}
+
+// validateGroupingUses follows the uses statements of n and of all of its
+// descendants (a uses nested in a container, list, choice, case or in the
+// augment of another uses expands just the same).  Nested grouping
+// definitions are validated on their own by validateGroupingsWalk.
+func (c *Compiler) validateGroupingUses(
+	m parse.Node,
+	g parse.Node,
+	n parse.Node,
+	group_map map[string]bool) error {
+
+	for _, u := range n.Children() {
+		if u.Type() == parse.NodeGrouping {
+			continue
+		}
+		if u.Type() != parse.NodeUses {
+			if err := c.validateGroupingUses(m, g, u, group_map); err != nil {
+				return err
+			}
+			continue
+		}
 		gname := u.ArgIdRef()
 		mod, err := u.GetModuleByPrefix(
 			gname.Space, c.modules, c.skipUnknown)
@@ -83,7 +110,7 @@ func (c *Compiler) validateGrouping(
 			continue
 		}
 
-		ug, ok := g.LookupGrouping(gname.Local)
+		ug, ok := u.LookupGrouping(gname.Local)
 		if !ok {
 			return fmt.Errorf(
 				"Unknown grouping (grouping %s) referenced from grouping %s",
@@ -91,6 +118,10 @@ func (c *Compiler) validateGrouping(
 		}
 
 		if err := c.validateGrouping(m, ug, group_map); err != nil {
+			return err
+		}
+		// ... and the uses statements inside augments of this uses
+		if err := c.validateGroupingUses(m, g, u, group_map); err != nil {
 			return err
 		}
 	}
